@@ -444,6 +444,7 @@ func (c *SizedLRU) performQueuedEvictions() {
 	sliceOfEntries := <-c.queuedEvictionsChan
 
 	for _, kv := range sliceOfEntries {
+		verifYield("evict.beforeUnlink", kv.key)
 		c.onEvict(kv.key, kv.value)
 		c.queuedEvictionsSize.Add(-kv.value.sizeOnDisk)
 	}
